@@ -171,6 +171,35 @@ Section K3.
     rewrite p_last, skipn_all, app_nil_r.
     repeat split; try reflexivity. rewrite (concat_outs_length n (le_n n)). exact p_last.
   Qed.
+  (* after the kernel, the slice of vector i is exactly what the function returned for it *)
+  Lemma slice_after i : i < n ->
+    slice (concat (map the_out (seq 0 n))) (p i) (p (S i)) = the_out i.
+  Proof.
+    intros Hi. replace n with (i + (1 + (n - S i))) at 1 by lia. rewrite !seq_app, !map_app, !concat_app. simpl.
+    rewrite app_nil_r. pose proof (concat_outs_length i ltac:(lia)) as LA. pose proof (p_mono i (S i) ltac:(lia) ltac:(lia)).
+    unfold slice. rewrite skipn_app, skipn_all2 by lia. rewrite LA, Nat.sub_diag. simpl skipn. simpl app.
+    rewrite firstn_app_exact; [reflexivity|]. unfold the_out. rewrite (HO i Hi). reflexivity.
+  Qed.
+
+  (* The content-level model is the denotation of the kernel-level model.  With
+       lay_i = indices[indptr[i]:indptr[i+1]]  and  denote i = the dense vector stored in segment i,
+     the function receives  gather lay_i (denote i)  and afterwards segment i denotes
+     scatter lay_i (what the function returned): exactly Table.transform's content-level definition. *)
+  Theorem kernel_denotes (indices : list nat) (minor : nat) :
+    let lay i := slice indices (p i) (p (S i)) in
+    let denote (d : list Z) i := scatter 0%Z minor (lay i) (slice d (p i) (p (S i))) in
+    forall i, i < n -> NoDup (lay i) -> (forall j, In j (lay i) -> j < minor) -> length indices = length data ->
+      fst (fst (nth i (snd (kernel n indptr ids md outs data)) ([], 0%Z, None))) = gather 0%Z (lay i) (denote data i) /\
+      denote (fst (kernel n indptr ids md outs data)) i = scatter 0%Z minor (lay i) (the_out i).
+  Proof.
+    intros lay denote i Hi Hn Hb Hlen.
+    pose proof (kernel_spec indices) as (C & D & _). unfold kernel_arr in C, D. simpl in C, D.
+    split.
+    - rewrite C. rewrite (nth_map_seq the_call n i _ Hi). unfold the_call. cbn [fst].
+      unfold denote. symmetry. apply gather_scatter; [exact Hn|exact Hb|].
+      unfold lay, slice. rewrite !firstn_length, !skipn_length, Hlen. reflexivity.
+    - unfold denote. rewrite D, (slice_after i Hi). reflexivity.
+  Qed.
 End K3.
 
 (* ------------------------------------------------------------------ Table.transform at the content level *)
